@@ -227,7 +227,65 @@ func schemaLemmas(prog *Program) []*lemmaQuery {
 	if prog.schema != nil {
 		detail = strings.Join(prog.schema.TypeProblems, "; ")
 	}
-	return []*lemmaQuery{structural("every column of CREATE_TABLE_STATEMENT is declared TEXT, BLOB or INTEGER with binary collation (exact storage and comparison)", "internal/app/subsystems/aio/store/sqlite:CREATE_TABLE_STATEMENT", ok, detail)}
+	return []*lemmaQuery{structural("every column of CREATE_TABLE_STATEMENT is declared TEXT, BLOB or INTEGER with binary collation (exact storage and comparison), and the script sets no pragma that switches off journalling, synchronisation or isolation", "internal/app/subsystems/aio/store/sqlite:CREATE_TABLE_STATEMENT", ok, detail)}
+}
+
+// schemaAgreementLemmas (C17): the Postgres handlers are verified against the table model built from the SQLite
+// schema, so the Postgres schema must declare the same tables with the same columns, of the same kind of
+// type (text / integer / bytes), the same defaults and the same uniqueness.
+func schemaAgreementLemmas(prog *Program) []*lemmaQuery {
+	const where = "internal/app/subsystems/aio/store/postgres:CREATE_TABLE_STATEMENT"
+	name := "the Postgres schema declares the same tables and columns (type kind, default, uniqueness) as the SQLite schema"
+	ddl, ok := prog.constString(repoModule+"/internal/app/subsystems/aio/store/postgres", "CREATE_TABLE_STATEMENT")
+	if !ok {
+		return []*lemmaQuery{structural(name, where, false, "constant not found")}
+	}
+	pg, err := SchemaFromDDL(ddl)
+	if err != nil {
+		return []*lemmaQuery{structural(name, where, false, "postgres schema: "+err.Error())}
+	}
+	var diffs []string
+	for _, tn := range prog.schema.Order {
+		a, b := prog.schema.Tables[tn], pg.Tables[tn]
+		if b == nil {
+			diffs = append(diffs, "table "+tn+" missing")
+			continue
+		}
+		if len(a.Cols) != len(b.Cols) {
+			diffs = append(diffs, fmt.Sprintf("table %s: %d columns vs %d", tn, len(a.Cols), len(b.Cols)))
+		}
+		for _, ca := range a.Cols {
+			cb := b.col(ca.Name)
+			if cb == nil {
+				diffs = append(diffs, tn+"."+ca.Name+" missing")
+				continue
+			}
+			if ca.Sort != cb.Sort {
+				diffs = append(diffs, fmt.Sprintf("%s.%s: %s vs %s", tn, ca.Name, ca.SQLType, cb.SQLType))
+			}
+			da, db := "none", "none"
+			if ca.Default != nil {
+				da = fmt.Sprint(*ca.Default)
+			}
+			if cb.Default != nil {
+				db = fmt.Sprint(*cb.Default)
+			}
+			if da != db {
+				diffs = append(diffs, fmt.Sprintf("%s.%s: DEFAULT %s vs %s", tn, ca.Name, da, db))
+			}
+			// a generated sort id is unique by construction in both dialects (AUTOINCREMENT primary key / SERIAL)
+			if ca.AutoInc != cb.AutoInc || (!ca.AutoInc && ca.Unique != cb.Unique) {
+				diffs = append(diffs, fmt.Sprintf("%s.%s: uniqueness / auto increment differ", tn, ca.Name))
+			}
+		}
+	}
+	for _, tn := range pg.Order {
+		if prog.schema.Tables[tn] == nil {
+			diffs = append(diffs, "extra table "+tn)
+		}
+	}
+	diffs = append(diffs, pg.TypeProblems...)
+	return []*lemmaQuery{structural(name, where, len(diffs) == 0, strings.Join(diffs, "; "))}
 }
 
 // resetDefaultLemmas (C06): the stores delete their data on Stop only when Reset is configured, and the
@@ -295,6 +353,9 @@ func extraObligations(prog *Program, prop, tier string) []*lemmaQuery {
 		for _, be := range []string{"sqlite", "postgres"} {
 			out0 = append(out0, enqueueableShape(prog, repoModule+"/internal/app/subsystems/aio/store/"+be)...)
 		}
+	}
+	if prop == "C17" {
+		out0 = append(out0, schemaAgreementLemmas(prog)...)
 	}
 	if prop == "C17" {
 		// the Postgres search statements have the shape the paging argument needs (same obligations as C14)
